@@ -550,6 +550,81 @@ func tablesC06(c *Ctx) {
 		}
 		tabs = append(tabs, &tab{v, ints, pos})
 	}
+	// ... or one table whose element is a struct of the two encodings: map[crypto.Hash]struct{ a, b []byte }
+	if len(tabs) == 0 {
+		for _, v := range t2pkgVars(p) {
+			m, ok := v.Type().Underlying().(*types.Map)
+			if !ok || !t2isNamed(m.Key(), "crypto", "Hash") {
+				continue
+			}
+			st, ok := m.Elem().Underlying().(*types.Struct)
+			if !ok || st.NumFields() != 2 {
+				continue
+			}
+			isBytes := func(t types.Type) bool {
+				sl, ok := t.Underlying().(*types.Slice)
+				if !ok {
+					return false
+				}
+				b, ok := sl.Elem().Underlying().(*types.Basic)
+				return ok && b.Kind() == types.Uint8
+			}
+			if !isBytes(st.Field(0).Type()) || !isBytes(st.Field(1).Type()) {
+				continue
+			}
+			init := t2initOf(p, v)
+			entries, okM := []MapEntry(nil), false
+			if init != nil {
+				entries, okM = mapLit(p, init)
+			}
+			if !okM {
+				c.Und(rule, "table "+v.Name()+"|constant literal", w.Pos(v.Pos()), "initializer is not a map literal of constant keys")
+				continue
+			}
+			two := []*tab{{st.Field(0), map[int64][]byte{}, map[string]token.Pos{}}, {st.Field(1), map[int64][]byte{}, map[string]token.Pos{}}}
+			good := true
+			for _, e := range entries {
+				cl, isCL := e.Val.(*ast.CompositeLit)
+				if !isCL || e.Key.Kind() != constant.Int {
+					good = false
+					break
+				}
+				k, _ := constant.Int64Val(e.Key)
+				for i, el := range cl.Elts {
+					idx := i
+					val := el
+					if kv, isKV := el.(*ast.KeyValueExpr); isKV {
+						id, isID := kv.Key.(*ast.Ident)
+						if !isID {
+							good = false
+							break
+						}
+						switch id.Name {
+						case st.Field(0).Name():
+							idx = 0
+						case st.Field(1).Name():
+							idx = 1
+						default:
+							good = false
+						}
+						val = kv.Value
+					}
+					b, okB := byteSliceLit(p, val)
+					if !okB || idx > 1 {
+						good = false
+						break
+					}
+					two[idx].data[k] = b
+					two[idx].pos[fmt.Sprint(k)] = e.Pos
+				}
+			}
+			if !good {
+				c.Und(rule, "table "+v.Name()+"|constant literal", w.Pos(v.Pos()), "an element is not a literal of two constant byte lists")
+				continue
+			}
+			tabs = append(tabs, two...)
+		}
+	}
 	if len(tabs) != 2 {
 		c.Unresolved(rule, fmt.Sprintf("exactly two package-level map[crypto.Hash][]byte tables (found %d)", len(tabs)))
 		c.Floor(rule, 0, 8, "prefix table entries")
